@@ -267,3 +267,147 @@ package hotline
 //@   ensures r != nil && fresh(r) && r.Access == access && r.Login == login && r.Name == name
 //@   modifies nothing
 //@   nopanic
+
+// ---------------------------------------------------------------------------------
+// Client registry (C13): the ID handed to a new connection is not held by any registered client.
+
+//@ define inv_ClientMgr(cm) := cm != nil && !isnil(cm.clients)
+
+//@ func (cm *MemClientMgr) Add(cc *ClientConn)
+//@   requires inv_ClientMgr(cm) && cc != nil
+//@   ensures !has_old(cm.clients, cc.ID)
+//@   ensures has(cm.clients, cc.ID) && get(cm.clients, cc.ID) == cc
+//@   ensures forall(a, 0, 256, forall(b, 0, 256, (a != cc.ID[0] || b != cc.ID[1]) ==> has(cm.clients, seq(a, b)) == has_old(cm.clients, seq(a, b)) && get(cm.clients, seq(a, b)) == get_old(cm.clients, seq(a, b))))
+//@   loop 1 modifies cc.ID, cm.nextClientID
+//@   guarded_by cm.mu: clients, nextClientID
+//@   nopanic
+
+//@ func (cm *MemClientMgr) Delete(id ClientID)
+//@   guarded_by cm.mu: clients, nextClientID
+//@   requires inv_ClientMgr(cm)
+//@   ensures !has(cm.clients, id)
+//@   ensures forall(a, 0, 256, forall(b, 0, 256, (a != id[0] || b != id[1]) ==> has(cm.clients, seq(a, b)) == has_old(cm.clients, seq(a, b)) && get(cm.clients, seq(a, b)) == get_old(cm.clients, seq(a, b))))
+//@   nopanic
+
+//@ func (cm *MemClientMgr) Get(id ClientID) (r *ClientConn)
+//@   guarded_by cm.mu: clients, nextClientID
+//@   requires inv_ClientMgr(cm)
+//@   ensures has(cm.clients, id) ==> r == get(cm.clients, id)
+//@   ensures !has(cm.clients, id) ==> r == nil
+//@   nopanic
+
+//@ func (cm *MemClientMgr) List() (r []*ClientConn)
+//@   guarded_by cm.mu: clients, nextClientID
+//@   requires inv_ClientMgr(cm)
+
+// ---------------------------------------------------------------------------------
+// Replies (C14): a reply carries the reply flag, the request's ID and the requester's client ID.
+
+//@ func (cc *ClientConn) NewReply(t *Transaction, fields []Field) (r Transaction)
+//@   requires cc != nil && t != nil
+//@   ensures r.IsReply == 1 && r.ID == old(t.ID) && r.ClientID == old(cc.ID) && r.ErrorCode[0] == 0 && r.ErrorCode[1] == 0 && r.ErrorCode[2] == 0 && r.ErrorCode[3] == 0 && same(r.Fields, fields) && r.readOffset == 0
+//@   nopanic
+
+//@ func (cc *ClientConn) NewErrReply(t *Transaction, errMsg string) (r []Transaction)
+//@   requires cc != nil && t != nil && len(errMsg) <= 65535
+//@   ensures len(r) == 1 && fresh(r)
+//@   ensures r[0].IsReply == 1 && r[0].ID == old(t.ID) && r[0].ClientID == old(cc.ID) && r[0].ErrorCode[0] == 0 && r[0].ErrorCode[1] == 0 && r[0].ErrorCode[2] == 0 && r[0].ErrorCode[3] == 1
+//@   ensures len(r[0].Fields) == 1 && r[0].Fields[0].Type[0] == 0 && r[0].Fields[0].Type[1] == 100 && bytes(r[0].Fields[0].Data) == bytes(errMsg) && inv_FieldV(r[0].Fields[0])
+//@   nopanic
+
+//@ define inv_FieldV(f) := len(f.Data) <= 65535 && u16(bytes(f.FieldSize)) == len(f.Data)
+
+// ---------------------------------------------------------------------------------
+// User flags: a 16-bit word, flag i is bit i of the big-endian value
+
+//@ func (f *UserFlags) IsSet(i int) (r bool)
+//@   requires f != nil && 0 <= i && i < 16
+//@   ensures r == (bitof(u16(bytes(f)), i) == 1)
+//@   modifies nothing
+//@   nopanic
+
+//@ func (f *UserFlags) Set(i int, newVal uint)
+//@   requires f != nil && 0 <= i && i < 16 && (newVal == 0 || newVal == 1)
+//@   ensures bitof(u16(bytes(f)), i) == newVal
+//@   ensures forall(j, 0, 16, j != i ==> bitof(u16(bytes(f)), j) == old(bitof(u16(bytes(f)), j)))
+//@   modifies *f
+//@   split i 0 16
+//@   nopanic
+
+// ---------------------------------------------------------------------------------
+// C02 segmentation independence.  A connection delivers its bytes in arbitrary chunks, so
+//  - a chunking copy (io.Copy / io.CopyN) may feed a record parser (a Write method that needs a
+//    complete record) only from an in-memory reader;  writer_kind: 1 record parser, 2 stream
+//    writer, 0 unknown;  reader_kind: 2 in-memory reader, otherwise a connection;
+//  - the connection is never read with a bare Read whose count would be taken for a record.
+
+//@ func (h *handshake) Write(p []byte) (n int, err error)
+//@   record_writer
+//@ func (tf *transfer) Write(b []byte) (n int, err error)
+//@   record_writer
+//@ func (ffif *FlatFileInformationFork) Write(p []byte) (n int, err error)
+//@   record_writer
+//@ func (f *Field) Write(p []byte) (n int, err error)
+//@   record_writer
+
+//@ func performHandshake(rw io.ReadWriter) (err error)
+//@   before call io.CopyN assert writer_kind(arg0) == 2 || reader_kind(arg1) == 2
+//@   before call io.Copy assert writer_kind(arg0) == 2 || reader_kind(arg1) == 2
+//@   before call (io.ReadWriter).Read assert false
+//@   before call (io.Reader).Read assert false
+//@   before call io.ReadFull assert len(arg1) == 12
+
+//@ func (s *Server) handleFileTransfer(ctx context.Context, rwc io.ReadWriter) (err error)
+//@   before call io.CopyN assert writer_kind(arg0) == 2 || reader_kind(arg1) == 2
+//@   before call io.Copy assert writer_kind(arg0) != 1 || reader_kind(arg1) == 2
+//@   before call (io.ReadWriter).Read assert false
+//@   before call (io.Reader).Read assert false
+//@   before call io.ReadFull assert len(arg1) == 16
+
+//@ func (ffo *flattenedFileObject) ReadFrom(r io.Reader) (n int64, err error)
+//@   before call io.CopyN assert writer_kind(arg0) != 1 || reader_kind(arg1) == 2
+//@   before call io.Copy assert writer_kind(arg0) != 1 || reader_kind(arg1) == 2
+//@   before call (io.Reader).Read assert false
+
+//@ func UploadFolderHandler(rwc io.ReadWriter, fullPath string, fileTransfer *FileTransfer, fileStore FileStore, rLogger *slog.Logger, preserveForks bool) (err error)
+//@   before call io.CopyN assert writer_kind(arg0) != 1 || reader_kind(arg1) == 2
+//@   before call io.Copy assert writer_kind(arg0) != 1 || reader_kind(arg1) == 2
+//@   before call (io.ReadWriter).Read assert false
+//@   before call (io.Reader).Read assert false
+
+//@ func DownloadFolderHandler(rwc io.ReadWriter, fullPath string, fileTransfer *FileTransfer, fileStore FileStore, rLogger *slog.Logger, preserveForks bool) (err error)
+//@   before call io.CopyN assert writer_kind(arg0) != 1 || reader_kind(arg1) == 2
+//@   before call (io.ReadWriter).Read assert false
+//@   before call (io.Reader).Read assert false
+
+// C02 + C09: receiveFile copies exactly the declared data-fork size into the target or fails.
+
+//@ func receiveFile(r io.Reader, targetFile io.Writer, resForkFile io.Writer, infoFork io.Writer, counterWriter io.Writer) (err error)
+//@   before call io.CopyN assert writer_kind(arg0) != 1 || reader_kind(arg1) == 2
+//@   before call io.Copy assert writer_kind(arg0) != 1 || reader_kind(arg1) == 2
+//@   before call (io.Reader).Read assert false
+//@   ensures err == nil ==> written(targetFile) == max(callres("(*hotline.flattenedFileObject).dataSize"), 0)
+
+// C09: the partial file keeps what it already holds (append, never truncate); nothing is opened or
+// renamed when the final name exists; the final name appears only after a complete receive.
+
+//@ func UploadHandler(rwc io.ReadWriter, fullPath string, fileTransfer *FileTransfer, fileStore FileStore, rLogger *slog.Logger, preserveForks bool) (err error)
+//@   before call os.OpenFile assert bitof(arg1, 10) == 1 && bitof(arg1, 9) == 0
+//@   before call (hotline.FileStore).OpenFile assert bitof(arg2, 10) == 1 && bitof(arg2, 9) == 0
+//@   before call os.OpenFile assert callres("os.Stat", 1) != nil
+//@   before call (hotline.FileStore).Rename assert callres("hotline.receiveFile") == nil && callres("os.Stat", 1) != nil
+//@   before call os.Rename assert callres("hotline.receiveFile") == nil && callres("os.Stat", 1) != nil
+//@   before call (io.ReadWriter).Read assert false
+
+// ---------------------------------------------------------------------------------
+// C14: one transaction, one Write.  The connection is never fed by a chunking copy, and the source
+// of a copy must not bring its own WriteTo (io.Copy would bypass Read and write in pieces).
+
+//@ func (s *Server) sendTransaction(t Transaction) (err error)
+//@   before call io.Copy assert false
+//@   before call io.CopyN assert false
+//@   ensures ghost(connwrites) <= 1
+
+//@ func sendBanMessage(rwc io.Writer, message string)
+//@   before call io.Copy assert !has_method(arg1, "WriteTo")
+//@   requires len(message) <= 30000
